@@ -114,7 +114,7 @@ static void die(const char *msg)
 enum { K_START, K_CONT, K_DATA, K_END, K_CCTL, K_CTXT, K_NULL };
 static const char *kind_name[] = { "start", "continue", "data", "terminator", "caption control", "caption text", "null" };
 
-typedef struct { uint8_t a, b, bad, kind; int8_t pkt; } pair_t;
+typedef struct { uint8_t a, b, bad, kind; int8_t pkt; uint8_t reset_before; } pair_t;   /* reset_before: xds_demux only, vbi_xds_demux_reset() is called before the pair is fed */
 #define MAXPAIRS 640
 typedef struct { pair_t p[MAXPAIRS]; int n; } stream_t;
 
@@ -272,6 +272,13 @@ static void model_init(model_t *m, int impl)
         m->cur = -1; m->impl = impl;
 }
 
+/* vbi_xds_demux_reset(): every started packet is forgotten, no packet is open */
+static void model_reset(model_t *m)
+{
+        for (int k = 0; k < m->nkeys; k++) { mpart_t *q = &m->part[m->keys[k]]; if (q->live) { q->live = 0; q->reason = R_NEVER; } }
+        m->cur = -1;
+}
+
 static void model_step(model_t *m, const pair_t *p, mstep_t *o)
 {
         memset(o, 0, sizeof *o);
@@ -425,6 +432,7 @@ static int run_demux(const stream_t *s, const char *fault, runstat_t *rs)
                         _vbi_xds_subpacket *sl;
                         if (m.part[m.keys[k]].live && (sl = demux_slot(xd, m.keys[k]))) { snap[nsnap] = *sl; snapkey[nsnap++] = m.keys[k]; }
                 }
+                if (p->reset_before) { vbi_xds_demux_reset(xd); model_reset(&m); nsnap = 0; mc_count("demux_resets", 1); }
                 mstep_t ms; model_step(&m, p, &ms);
                 uint8_t *buf = mc_exact(NULL, 2);
                 buf[0] = par8(p->a) ^ ((p->bad & 1) ? 0x80 : 0); buf[1] = par8(p->b) ^ ((p->bad & 2) ? 0x80 : 0);
@@ -1283,16 +1291,18 @@ static void apply_fault_and_run(const stream_t *base, const f_arg_t *a)
         static stream_t s;
         static const char *kinds[4] = { "dropped", "first byte with bad parity in", "second byte with bad parity in", "checksum off by one in" };
         for (int pos = 0; pos < base->n; pos++) {
-                for (int fk = 0; fk < 5; fk++) {
-                        if (fk >= 3 && base->p[pos].kind != K_END) continue;
+                for (int fk = 0; fk < 6; fk++) {
+                        if ((fk == 3 || fk == 4) && base->p[pos].kind != K_END) continue;
                         if (base->p[pos].kind == K_NULL) continue;
+                        if (fk == 5 && !(a->impls & IMPL_DEMUX)) continue;
                         s = *base;
                         char fault[96];
                         if (fk == 0) { memmove(&s.p[pos], &s.p[pos + 1], (s.n - pos - 1) * sizeof(pair_t)); s.n--; snprintf(fault, sizeof fault, "dropped %s pair", kind_name[base->p[pos].kind]); }
                         else if (fk <= 2) { s.p[pos].bad = fk; snprintf(fault, sizeof fault, "parity error in %s pair", kind_name[base->p[pos].kind]); }
-                        else { s.p[pos].b = (s.p[pos].b + (fk == 3 ? 1 : 127)) & 127; snprintf(fault, sizeof fault, "checksum off by one"); }
+                        else if (fk <= 4) { s.p[pos].b = (s.p[pos].b + (fk == 3 ? 1 : 127)) & 127; snprintf(fault, sizeof fault, "checksum off by one"); }
+                        else { s.p[pos].reset_before = 1; snprintf(fault, sizeof fault, "vbi_xds_demux_reset() before a %s pair", kind_name[base->p[pos].kind]); }
                         (void) kinds;
-                        run_stream(&s, a->impls, fault, &a->opt, "two packets + caption with one fault");
+                        run_stream(&s, fk == 5 ? IMPL_DEMUX : a->impls, fault, &a->opt, "two packets + caption with one fault");
                 }
         }
 }
